@@ -216,6 +216,9 @@ func init() {
 	core.Register(&core.Profile{
 		ID: "C03", Engine: "graphsim", Quick: 2500, Thorough: 60000, ThoroughSeeds: 3,
 		Run: func(t *kernel.Tape, o core.Opts) *core.Outcome {
+			if t.Plan(5) == 0 {
+				return runAfterAbort(t, o) // a run started while nodes of an earlier, failed run still finish
+			}
 			return runBasic(t, o, basicCfg{prefix: "C03",
 				gen:       GenOpts{Modes: []int{ModePregel, ModeDAG, ModeWorkflow, ModeWorkflow}, MaxNodes: 7, Depth: 1, Cycles: true, Streams: false, Yields: 3, State: 0, Parallelism: true},
 				paradigms: []int{PInvoke, PInvoke, PStream}})
@@ -276,4 +279,58 @@ func execsComparable(p *Plan, mr *ModelResult) bool {
 		return !hasDAG(p)
 	}
 	return false
+}
+
+// runAfterAbort: the first call fails (one node fails for that call only) while sibling
+// nodes may still be running (eager mode) or just finished; the second call on the same
+// compiled object must be collected completely and independently: its result and its
+// executions equal the fault-free reference model.
+func runAfterAbort(t *kernel.Tape, opt core.Opts) *core.Outcome {
+	o := &core.Outcome{}
+	g := GenOpts{Modes: []int{ModeWorkflow, ModeWorkflow, ModeDAG, ModePregel}, MaxNodes: 6, Depth: 1, Cycles: true, Yields: 3, Parallelism: true}
+	p := Generate(t, g)
+	ls := lambdas(p, "")
+	in := M{"in": fmt.Sprintf("x%d", t.Plan(3))}
+	mr := RunModel(p, in) // fault-free
+	if len(ls) > 0 {
+		l := ls[t.Plan(len(ls))]
+		l.n.FailAt, l.n.FailKind, l.n.FailTag = 0, t.Plan(2), "r0"
+	}
+	calls := []*Call{{Tag: "r0", Paradigm: PInvoke, In: in, StopAfter: -1}, {Tag: "r1", Paradigm: t.Plan(2), In: in, StopAfter: -1}}
+	o.Sample = p.Render() + " afterAbort second=" + paradigmNames[calls[1].Paradigm]
+	o.PlanHash = planHash(o.Sample)
+	s := kernel.New(t, 80*countNodes(p))
+	defer s.Close()
+	s.KeepTrace = opt.KeepTrace
+	env := NewEnv(s)
+	r, err := (&builder{env: env, top: p}).Compile(context.Background(), p)
+	if err != nil {
+		o.Infra = "generated plan does not compile: " + err.Error() + " :: " + o.Sample
+		return o
+	}
+	results := make([]*CallResult, 2)
+	s.Go("caller0", func() {
+		for i, c := range calls {
+			results[i] = doCall(env, r, c)
+		}
+	})
+	kr := s.Run(80000)
+	core.FinishKernel(o, s, kr, "C03")
+	if o.Infra != "" || kr.Budget {
+		return o
+	}
+	for i := range results {
+		if results[i] == nil || !results[i].Done {
+			o.Violate("C03/hang", fmt.Sprintf("call %d never returned; unfinished tasks: %s\n%s", i, strings.Join(kr.Unfinished, ","), stacksOf(kr.Blocked)))
+			return o
+		}
+	}
+	if results[0].Err != nil {
+		o.Stat("probe.first_run_aborted", 1)
+	}
+	checkAgainstModel(o, "C03/after-aborted-run", p, env, calls[1], results[1], mr, execsComparable(p, mr))
+	foldEnv(o, env)
+	o.Stat("scenario.after_abort", 1)
+	o.Stat("mode."+modeNames[p.Mode], 1)
+	return o
 }
